@@ -124,7 +124,7 @@ Fixpoint sm_run (s : wstate) (cs : list call) : list Z * bool :=
    function writes anything before its last REQUIRE, so a refused call writes nothing; a member assigned BEFORE the failing REQUIRE
    keeps the new value - the only such place is
      initProgram(b):            inc_ = b;  REQUIRE(!inc_ || ext_)                         -> inc_ changed
-   (rule(ht, {}, bound, body) sets fHead_ only AFTER the recursive call on {false_} has written the rule: repaired in /repo d5c8ba1;
+   (rule(ht, {}, bound, body) sets fHead_ only AFTER the recursive call on {false_} has written the rule: repaired in /repo 82b5ba2;
    before, a refused weight rule with empty head left fHead_ set).  Every other refusal happens before any assignment. *)
 Definition sm_refused_state (s : wstate) (c : call) : wstate :=
   match c with
